@@ -63,6 +63,40 @@ def h_time(n, oc):
         c.check('time-of-day-window-keeps-exactly-the-rows-inside', len(got) == len(keep) and all(g[0] == ts[i] and feq(g[1], vs[i]) for g, i in zip(got, keep)))
     return h
 
+Q = 250000                                   # quarter seconds: the resolution of the sub-second variant
+def mktime_q(c, name):
+    q = c.int(name, 0, 4 * 86400 - 1)
+    if c.mode == 'sym': return core.SymTime(core.zi(q) * Q), q * Q
+    us = q * Q
+    return _rdt.time(us // (3600 * 10**6), (us // (60 * 10**6)) % 60, (us // 10**6) % 60, us % 10**6), us
+
+def h_time_subsecond(n, oc):
+    """the time-of-day window at a resolution of a quarter of a second: stamps and bounds anywhere in the day, compared by microsecond of day"""
+    def h(c):
+        Pm = P()
+        td = shims.shim_timedelta if c.mode == 'sym' else _rdt.timedelta
+        ts = []; t = c.datetime('t0', us_step = Q)
+        for i in range(n):
+            if i: t = t + td(microseconds = Q * c.int('t.gap%d' % i, 1, 4 * 86400 * 2))
+            ts.append(t)
+        vs = [value(c, 'v%d' % i, nan = False) for i in range(n)]
+        s = mkseries(c, vs, ts)
+        lb, lu = mktime_q(c, 'lbq'); ub, uu = mktime_q(c, 'ubq')
+        l_closed = oc[0] == '['; u_closed = oc[1] == ']'
+        wrap = lu > uu
+        c.cover('wraps-past-midnight', wrap)
+        r = Pm.df_slice(s, lb, ub, oc)
+        got = rows(r)
+        keep = []
+        for i, t in enumerate(ts):
+            u = ((t.hour * 60 + t.minute) * 60 + t.second) * 10**6 + t.microsecond
+            if i == 0: c.cover('stamp-in-the-same-second-as-a-bound-but-not-on-it', X.And(u != lu, u - u % 10**6 == lu - lu % 10**6))
+            inl = (u >= lu) if l_closed else (u > lu)
+            inu = (u <= uu) if u_closed else (u < uu)
+            if X.If(wrap, X.Or(inl, inu), X.And(inl, inu)): keep.append(i)
+        c.check('time-of-day-window-keeps-exactly-the-rows-inside-to-the-microsecond', len(got) == len(keep) and all(g[0] == ts[i] and feq(g[1], vs[i]) for g, i in zip(got, keep)))
+    return h
+
 def h_stitch(k, n, decreasing):
     """k series on a common index of n stamps, upper bounds ub[0] < ... : stamp t takes its value from the series i with ub[i-1] < t <= ub[i]"""
     def h(c):
@@ -182,6 +216,7 @@ def obligations(tier):
                               desc = 'df_slice of %d rows, bounds %s, brackets %s: exactly the rows inside, values untouched' % (n, kind, oc)))
     for n in range(1, N + 1):
         for oc in ('()', '(]', '[)', '[]'):
+            if n in (1, 2): obs.append(Ob('time-of-day.subsecond.%d.%s' % (n, oc), h_time_subsecond(n, oc), setup = S, budget_s = 300, desc = 'time-of-day window with stamps and bounds on a quarter-second grid (%d rows, brackets %s): compared to the microsecond' % (n, oc)))
             obs.append(Ob('time-of-day.%d.%s' % (n, oc), h_time(n, oc), setup = S, budget_s = 300 if n < 4 else 1500, desc = 'time-of-day window (incl. wrap past midnight) on %d rows, brackets %s' % (n, oc)))
     for k in (2, 3):
         for n in range(1, (3 if q else 4)):
